@@ -3,7 +3,9 @@
 package checks
 
 import (
+	"context"
 	"github.com/compose-spec/compose-go/v2/interpolation"
+	"github.com/compose-spec/compose-go/v2/types"
 	"gopkg.in/yaml.v3"
 
 	"encoding/json"
@@ -271,6 +273,7 @@ func C08(c *core.Ctx) {
 		c.Inconclusive("Interp specification violates " + r.Violated)
 		return
 	}
+	c08Shape(c)
 	tps, err := schemaTypedPaths()
 	if err != nil || len(tps) < 20 {
 		c.Inconclusive(fmt.Sprintf("cannot derive typed paths from the schema: %v (%d)", err, len(tps)))
@@ -420,6 +423,17 @@ func C08(c *core.Ctx) {
 					c.Report(core.Finding{Sig: "variable-differs-in-include:" + pstr, Detail: fmt.Sprintf("%s: in an included file literal %v and variable %q load to different values", pstr, literalOf(kind, text), text), Replay: rep})
 				}
 			}
+			// the dictionary form of the model (LoadModelWithContext): wherever both forms arrive there as numbers or as booleans,
+			// they are the same number / boolean (an attribute the loader only converts when it binds the model stays text in one of them)
+			if ev == nil {
+				mv, e1 := c08Model(wd, tenv, varDoc)
+				ml, e2 := c08Model(wd, tenv, litDoc)
+				if e1 == nil && e2 == nil {
+					if d := c08TypedDiff(mv, ml, ""); d != "" {
+						c.Report(core.Finding{Sig: "variable-differs-in-model:" + pstr, Detail: fmt.Sprintf("%s: literal %v and variable %q (%s) give different typed values in the loaded model: %s", pstr, literalOf(kind, text), text, style, d), Replay: rep})
+					}
+				}
+			}
 			if ev == nil && projDump(pv) != projDump(pl) {
 				c.Report(core.Finding{Sig: "variable-differs:" + pstr, Detail: fmt.Sprintf("%s: literal %v and variable %q (%s) load to different values: %s", pstr, literalOf(kind, text), text, style, firstDiff(projDump(pv), projDump(pl))), Replay: rep})
 			}
@@ -444,4 +458,103 @@ func C08(c *core.Ctx) {
 	c.Set("typed_paths_without_context", sk)
 	c.Logf("%d tree cases, %d typed cases over %d schema paths (%d without a usable context)", trees, typedCases, len(pathsCovered), len(sk))
 	c.Set("rule", "a case is a document whose string leaves are templates (all triples of 8 templates at 3 positions), or a typed schema position x text x substitution style; 2-4 real loads each; non-trivial when the document contains a `$`")
+}
+
+// c08Shape: documents without any `$`, with every kind of empty and nested container, interpolated through the interpolation
+// package itself: the result is the same document - same keys, same kinds, empty sequences still sequences (Interp.tla, ShapeLaw)
+func c08Shape(c *core.Ctx) {
+	docs := []string{
+		`{"services":{"a":{"image":"i","command":[],"dns":[],"labels":{},"ports":[{"target":80,"published":"8080"}],"x-n":[[],{"k":[]},[[1,2.5,true,null]]]}},"volumes":{},"x-top":[]}`,
+		`{"services":{"a":{"image":"i","entrypoint":["sh","-c",""],"environment":{"A":null,"B":"","C":"c"},"cpus":0.5,"scale":0,"init":false,"read_only":true}}}`,
+	}
+	for _, d := range docs {
+		var in map[string]interface{}
+		if err := json.Unmarshal([]byte(d), &in); err != nil {
+			c.Inconclusive("shape document: " + err.Error())
+			return
+		}
+		before, _ := json.Marshal(in)
+		out, err := interpolation.Interpolate(in, interpolation.Options{LookupValue: func(string) (string, bool) { return "", false }})
+		after, _ := json.Marshal(out)
+		c.Eval("shape|"+d, true)
+		if err != nil || string(after) != string(before) {
+			c.Report(core.Finding{Sig: "shape-changed", Detail: fmt.Sprintf("interpolation.Interpolate on a document without any substitution gives %s (%v); the document is %s", after, err, before), Replay: map[string]interface{}{"document": d}})
+		}
+	}
+}
+
+func c08Model(wd string, env map[string]string, doc string) (m map[string]interface{}, err error) {
+	defer func() {
+		if r := recover(); r != nil {
+			err = fmt.Errorf("panic: %v", r)
+		}
+	}()
+	e := types.Mapping{}
+	for k, v := range env {
+		e[k] = v
+	}
+	return loader.LoadModelWithContext(context.Background(), types.ConfigDetails{WorkingDir: wd, Environment: e,
+		ConfigFiles: []types.ConfigFile{{Filename: filepath.Join(wd, "c.yaml"), Content: []byte(doc)}}}, func(o *loader.Options) { o.SetProjectName("proj", true) })
+}
+
+// c08TypedDiff: the first place where two models hold different numbers or different booleans
+func c08TypedDiff(a, b interface{}, path string) string {
+	num := func(v interface{}) (float64, bool) {
+		switch x := v.(type) {
+		case int:
+			return float64(x), true
+		case int64:
+			return float64(x), true
+		case uint32:
+			return float64(x), true
+		case uint64:
+			return float64(x), true
+		case float32:
+			return float64(x), true
+		case float64:
+			return x, true
+		}
+		return 0, false
+	}
+	switch x := a.(type) {
+	case map[string]interface{}:
+		y, ok := b.(map[string]interface{})
+		if !ok {
+			return ""
+		}
+		for k, v := range x {
+			if w, has := y[k]; has {
+				if d := c08TypedDiff(v, w, path+"."+k); d != "" {
+					return d
+				}
+			}
+		}
+	case []interface{}:
+		y, ok := b.([]interface{})
+		if !ok || len(y) != len(x) {
+			return ""
+		}
+		for i := range x {
+			if d := c08TypedDiff(x[i], y[i], fmt.Sprintf("%s[%d]", path, i)); d != "" {
+				return d
+			}
+		}
+	case bool:
+		if y, ok := b.(bool); ok && y != x {
+			return fmt.Sprintf("%s: %v vs %v", path, x, y)
+		}
+	default:
+		if na, ok := num(a); ok {
+			if nb, ok := num(b); ok && na != nb {
+				// a value the model holds in single precision on either side is compared in single precision
+				_, fa := a.(float32)
+				_, fb := b.(float32)
+				if (fa || fb) && float32(na) == float32(nb) {
+					return ""
+				}
+				return fmt.Sprintf("%s: %v (%T) vs %v (%T)", path, a, a, b, b)
+			}
+		}
+	}
+	return ""
 }
